@@ -26,7 +26,9 @@ m("C01-serve-then-record", "C01", "C01.R2", EX,
 m("C01-schedule-seed-zero", "C01", "C01.R3", "shuttle-schedulers/src/random.rs",
   "            Some(Schedule::new(seed))", "            Some(Schedule::new(0))", "Random scheduler records seed 0")
 m("C01-urw-no-reseed", "C01", "C01.R3", "shuttle-schedulers/src/urw.rs",
-  "        self.rng = Pcg64Mcg::seed_from_u64(seed);\n        Some(Schedule::new(seed))", "        Some(Schedule::new(seed))", "URW does not re-seed its choice rng")
+  "        self.rng = Pcg64Mcg::seed_from_u64(seed);\n        Some(Schedule::new(seed))", "        Some(Schedule::new(seed))",
+  "URW does not re-seed its choice rng per iteration: the run is still a function of the constructor seed and replay uses the recorded choices, "
+  "so neither C01 nor C10 is broken (control: must NOT fire)", silent=True)
 m("C01-replay-cursor", "C01", "C01.R4", "shuttle-schedulers/src/replay.rs",
   "            ScheduleStep::Random => {\n                self.steps += 1;\n                self.data_source.next_u64()",
   "            ScheduleStep::Random => {\n                let v = self.data_source.next_u64();\n                self.steps += 1;\n                v",
@@ -270,3 +272,32 @@ m("C04-holder-before-acquire", "C04", "holder-after-acquire", "shuttle-std/src/s
   "        let mut state = self.state.borrow_mut();\n        trace!(holder=?state.holder, semaphore=?self.semaphore, \"trying to acquire mutex {:p}\", self);\n        drop(state);",
   "        let mut state = self.state.borrow_mut();\n        trace!(holder=?state.holder, semaphore=?self.semaphore, \"trying to acquire mutex {:p}\", self);\n        if state.holder.is_none() {\n            state.holder = Some(me);\n        }\n        drop(state);",
   "try_lock records itself as holder before it owns the permit")
+# ---- behaviour-preserving controls (refactorings a maintainer might do): every check must stay silent --------------------
+m("CTL-C14-extract-reset-helper", "C14", "", EX,
+  "        TASK_ID_TO_TAGS.with(|cell| cell.borrow_mut().clear());\n        LABELS.with(|cell| cell.borrow_mut().clear());\n",
+  "        fn reset_side_tables() {\n            TASK_ID_TO_TAGS.with(|cell| cell.borrow_mut().clear());\n            LABELS.with(|cell| cell.borrow_mut().clear());\n        }\n        reset_side_tables();\n",
+  "the two clears move into a local helper", silent=True)
+m("CTL-C17-wake-reordered", "C17", "", "shuttle-engine/src/runtime/task/mod.rs",
+  "        self.woken = true;\n        if self.state == TaskState::Sleeping {\n            self.unblock();\n        }",
+  "        if matches!(self.state, TaskState::Sleeping) {\n            self.unblock();\n        }\n        self.woken = true;",
+  "wake: unblock first, then set the flag (same effect)", silent=True)
+m("CTL-C13-inline-bound-test", "C13", "", EX,
+  "    fn is_step_bound_exceeded(&self, max_steps: usize) -> bool {\n        CurrentSchedule::len() - self.steps_reset_at >= max_steps\n    }",
+  "    fn is_step_bound_exceeded(&self, max_steps: usize) -> bool {\n        let taken = CurrentSchedule::len() - self.steps_reset_at;\n        taken >= max_steps\n    }",
+  "bound test through a temporary", silent=True)
+m("CTL-C04-holder-one-liner", "C04", "", "shuttle-std/src/sync/mutex.rs",
+  "        state = self.state.borrow_mut();\n        state.holder = Some(me);\n        drop(state);\n\n        trace!(semaphore=?self.semaphore, \"acquired mutex {:p}\", self);\n\n        // Grab a `MutexGuard` from the inner lock, which we must be able to acquire here\n        let result = match self.inner.try_lock() {\n            Ok(guard) => Ok(MutexGuard {\n                inner: Some(guard),\n                mutex: self,\n            }),\n            Err(TryLockError::Poisoned(guard)) => Err(TryLockError::Poisoned",
+  "        self.state.borrow_mut().holder = Some(me);\n\n        trace!(semaphore=?self.semaphore, \"acquired mutex {:p}\", self);\n\n        // Grab a `MutexGuard` from the inner lock, which we must be able to acquire here\n        let result = match self.inner.try_lock() {\n            Ok(guard) => Ok(MutexGuard {\n                inner: Some(guard),\n                mutex: self,\n            }),\n            Err(TryLockError::Poisoned(guard)) => Err(TryLockError::Poisoned",
+  "try_lock records the holder without the named borrow", silent=True)
+m("CTL-C01-advance-match", "C01", "", EX,
+  "        if let ScheduledTask::Some(tid) = self.current_task {\n            CurrentSchedule::push_task(tid);\n        }\n    }",
+  "        match self.current_task {\n            ScheduledTask::Some(tid) => CurrentSchedule::push_task(tid),\n            _ => {}\n        }\n    }",
+  "if-let rewritten as match", silent=True)
+m("CTL-C09-successor-via-local", "C09", "", DFS,
+  "                let next_idx = runnable.iter().position(|t| t.id() == last_choice).unwrap() + 1;",
+  "                let prev_idx = runnable.iter().position(|t| t.id() == last_choice).unwrap();\n                let next_idx = prev_idx + 1;",
+  "successor index through a temporary", silent=True)
+m("CTL-C11-num-points-split", "C11", "", PCT,
+  "            let num_points = std::cmp::min(self.max_depth - 1, self.max_steps - 1);",
+  "            let by_depth = self.max_depth - 1;\n            let by_steps = self.max_steps - 1;\n            let num_points = std::cmp::min(by_depth, by_steps);",
+  "min operands through temporaries", silent=True)
